@@ -24,6 +24,17 @@ PermOK(t, S, k) ==
      /\ Describes(p.reduced, t.latt, S)
      /\ LookupOK(p.lookup, t.number, S)
 
+(* step-level binding (CHMPY_VERIF hook in reduced_symmetry_list): one event per loop iteration carrying the popped
+   operation and the accumulator before the iteration; every iteration must be the spec's ReduceStep *)
+StepsOK(t) ==
+  LET st == t.steps n == Len(st) IN
+  \/ n = 0
+  \/ /\ n = Len(t.ops)
+     /\ [i \in 1..n |-> st[i].next] = t.ops
+     /\ st[1].red = <<IdentityCode>>
+     /\ \A i \in 1..(n-1) : st[i+1].red = ReduceStep(st[i].red, st[i].next, t.latt)
+     /\ t.reduced = ReduceStep(st[n].red, st[n].next, t.latt)
+
 KnownLatt(t, S) == IF Centro(S) /\ ~InversionAtOrigin(S) /\ t.latt > 0 THEN " KF=C02-latt-origin" ELSE ""
 
 Verdict(t) ==
@@ -42,6 +53,8 @@ Verdict(t) ==
   IF ~LookupOK(t.lookup_reduced, t.number, S) THEN "REJECT LookupReduced" \o KnownLatt(t, S) ELSE
   IF \E k \in DOMAIN t.perms : ~PermOK(t, S, k) THEN "REJECT PermutedReduce" \o KnownLatt(t, S) ELSE
   IF t.reduced # Reduce(t.ops, t.latt) THEN "ACCEPT drift=Reduce" ELSE
+  IF ~StepsOK(t) THEN "ACCEPT drift=ReduceSteps" ELSE
+  IF Len(t.steps) = 0 THEN "ACCEPT note=no-step-events" ELSE
   "ACCEPT"
 
 Ids(b) == {i \in 1..Len(Traces) : i % NBlocks = b - 1}
